@@ -47,6 +47,25 @@ def run_case(ctx, gd, q, via="outcomes", cards=None):
                      "tags": sorted(set(kernel.tags()))})
 
 
+def reuse_history(ctx, steps, q):
+    from y0.algorithm.identify import identify_outcomes
+    from y0.dsl import Variable
+
+    X = {Variable(gg.fresh(x)) for x in q["X"]}
+    Y = {Variable(gg.fresh(y)) for y in q["Y"]}
+    Z = {Variable(gg.fresh(z)) for z in q["Z"]}
+    intended = {k: sorted(q[k]) for k in "XYZ"}
+    for i, gd in enumerate(steps):
+        kernel.LOG.reset_case({"graph": gd, **intended, "via": "reused-sets", "caller-reuses-its-sets": True,
+                               "intended": intended, "history": steps[: i + 1]})
+        kernel.count("C03:calls-with-the-callers-own-sets-reused")
+        try:
+            res = identify_outcomes(gg.to_nx(gd), X, Y, Z)
+        except Exception:  # noqa: BLE001 -- judged by the on_raise monitor
+            res = None
+        ctx.case(f"{gg.key(gd)}|{q['X']}|{q['Y']}|{q['Z']}|reuse{i}", res is not None)
+
+
 def run_shard(ctx):
     gg.ALLOW_ODD = True  # node names that are not Python identifiers are node names like any other
     K = {"quick": 2, "thorough": 4}[ctx.tier]
@@ -135,6 +154,27 @@ def run_shard(ctx):
                 ctx.case(f"{gg.key(gd)}|{q['X']}|{q['Y']}|{q['Z']}|hist", res is not None)
             if rng.random() < 0.6:
                 gd = gg.edit_inplace(g, gd, rng)
+    # the caller keeps its own set objects: X, Y, Z are built once and handed to several calls on different graphs
+    # over the same nodes; every answer is judged against what the caller put into the sets
+    for _ in range(ctx.share({"quick": 1600, "thorough": 12000}[ctx.tier])):
+        gd = gg.random_admg(rng, rng.randint(3, 5), hostile=rng.choice(gg.HOSTILE + ("bichain",)))
+        q = gq.random_query(rng, gd, with_conditions=True, allow_empty_x=True)
+        if q is None or not q["Z"]:
+            continue
+        steps = [{"nodes": gd["nodes"], "di": gd["di"], "bi": gd["bi"]}]
+        for _s in range(3):
+            if _s == 0:
+                gd2 = gg.mutate(steps[-1], rng)
+                if not set(gd2["nodes"]) >= set(q["X"]) | set(q["Y"]) | set(q["Z"]):
+                    continue
+            else:  # another diagram over the same variables
+                order = list(gd["nodes"])
+                rng.shuffle(order)
+                pairs = [(a, b) for i, a in enumerate(order) for b in order[i + 1:]]
+                gd2 = {"nodes": list(gd["nodes"]), "di": [list(e) for e in pairs if rng.random() < 0.45],
+                       "bi": [sorted(e) for e in pairs if rng.random() < 0.25]}
+            steps.append(gd2)
+        reuse_history(ctx, steps, q)
     ctx.extras["hostile_classes"] = hostile_seen
     ctx.extras["query_classes"] = qcls
 
@@ -147,6 +187,10 @@ def replay(case):
         def case(self, *a, **k):
             pass
 
+    if case.get("history"):
+        reuse_history(_C(), [{"nodes": h["nodes"], "di": h["di"], "bi": h["bi"]} for h in case["history"]],
+                      {k: case[k] for k in "XYZ"})
+        return
     gd = case["graph"]
     gd = {"nodes": gd["nodes"], "di": gd["di"], "bi": gd["bi"]}
     run_case(_C(), gd, {"X": case["X"], "Y": case["Y"], "Z": case["Z"]}, via=case.get("via", "outcomes"), cards=case.get("cards"))
